@@ -390,6 +390,33 @@ func max(a, b int) int {
 	return b
 }
 
+// The semaphore counts solver processes, not queries: a portfolio run starts portfolioWidth processes at once,
+// an incremental script one. With more processes than cores a solver's wall-clock limit buys only a fraction
+// of that time in CPU, and proofs that take two seconds alone time out under load.
+const portfolioWidth = 5
+
+var semMu sync.Mutex
+
+func acquire(sem chan struct{}, k int) {
+	if k > cap(sem) {
+		k = cap(sem)
+	}
+	semMu.Lock()
+	for i := 0; i < k; i++ {
+		sem <- struct{}{}
+	}
+	semMu.Unlock()
+}
+
+func release(sem chan struct{}, k int) {
+	if k > cap(sem) {
+		k = cap(sem)
+	}
+	for i := 0; i < k; i++ {
+		<-sem
+	}
+}
+
 // discharge runs the solvers on all obligations of a function result.
 func discharge(res *FuncResult, opts VerifyOpts, sem chan struct{}) {
 	x := res.exec
@@ -406,13 +433,13 @@ func discharge(res *FuncResult, opts VerifyOpts, sem chan struct{}) {
 		pending = append(pending, o)
 	}
 	run := func(obls []*Obligation, needAll bool) SolverResult {
-		sem <- struct{}{}
-		defer func() { <-sem }()
+		acquire(sem, portfolioWidth)
+		defer release(sem, portfolioWidth)
 		return runPortfolio(x.smtFor(obls, opts.TimeoutS*1000), opts.TimeoutS, opts.Seed, opts.Solvers, needAll)
 	}
 	runT := func(obls []*Obligation, t int) SolverResult {
-		sem <- struct{}{}
-		defer func() { <-sem }()
+		acquire(sem, portfolioWidth)
+		defer release(sem, portfolioWidth)
 		if t > opts.TimeoutS {
 			t = opts.TimeoutS
 		}
@@ -427,8 +454,53 @@ func discharge(res *FuncResult, opts VerifyOpts, sem chan struct{}) {
 			return
 		}
 		if len(obls) == 1 {
+			o := obls[0]
+			if (o.Kind == "post" || o.Kind == "frame") && len(x.retInfos) > 1 && opts.TimeoutS > 3 && !opts.Thorough && os.Getenv("GOVC_NOSPLIT") == "" {
+				// an exit obligation that is not decided quickly is split by return statement: it holds iff it
+				// holds on every return path (and the exit is reached by no other path)
+				r := runT(obls, 3)
+				if r.Status == "unsat" || r.Status == "sat" {
+					o.Result = &r
+					return
+				}
+				parts := make([]*Obligation, 0, len(x.retInfos)+1)
+				var pcs []Term
+				for _, ri := range x.retInfos {
+					o2 := *o
+					o2.PC = And(o.PC, ri.pc)
+					parts = append(parts, &o2)
+					pcs = append(pcs, ri.pc)
+				}
+				o3 := *o
+				o3.PC = And(o.PC, Not(Or(pcs...)))
+				parts = append(parts, &o3)
+				rs := make([]SolverResult, len(parts))
+				var pw sync.WaitGroup
+				for i := range parts {
+					pw.Add(1)
+					go func(i int) {
+						defer pw.Done()
+						rs[i] = run(parts[i:i+1], false)
+					}(i)
+				}
+				pw.Wait()
+				all := true
+				tot := SolverResult{Status: "unsat", Solver: "by-return-path"}
+				for _, pr := range rs {
+					if pr.Status != "unsat" {
+						all = false
+					}
+					if pr.Seconds > tot.Seconds {
+						tot.Seconds = pr.Seconds
+					}
+				}
+				if all {
+					o.Result = &tot
+					return
+				}
+			}
 			r := run(obls, opts.Thorough)
-			obls[0].Result = &r
+			o.Result = &r
 			return
 		}
 		if os.Getenv("GOVC_KEEPALL") != "" {
